@@ -3,6 +3,7 @@
 -/
 import BioCantor.Model.DigestDict
 import BioCantor.Proofs.DigOrder
+set_option linter.unusedSimpArgs false
 namespace BioCantor.Proofs.Dig
 open BioCantor BioCantor.Spec.Digest BioCantor.Model.Digest
 open BioCantor.Spec.Qual (Str strLt strLe)
